@@ -251,7 +251,7 @@ def admissible(rng, tier):
         NW = rng.choice([1 + 0.5 * i for i in range(15)])
         if not (4 * NW < N):
             continue
-        K = rng.randint(1, int(2 * NW))
+        K = int(2 * NW) if rng.random() < 0.5 else rng.randint(1, int(2 * NW))   # the last tapers are the delicate ones
         return N, NW, K
 
 
@@ -285,7 +285,7 @@ def cases(rng, tier, seed):
     # ---- tridisolve, binary64, three forms
     forms = ['compiled', 'purepy', 'rebuilt']
     skipped = 0
-    nsys = 5000 if big else 220
+    nsys = 4000 if big else 220
     for i in range(nsys):
         d, e, b = gen_system(nr, big)
         if not pivots_ok(d, e, b):
@@ -308,7 +308,7 @@ def cases(rng, tier, seed):
                         meta={'kind': 'tridiq', 'd': [str(x) for x in d], 'e': [str(x) for x in e], 'b': [str(x) for x in b]}))
     # ---- dpss grid
     pts, seen = [], set()
-    want = 600 if big else 40
+    want = 400 if big else 40
     for corner in [(8, 1, 2), (9, 1.5, 3), (31, 7.5, 15), (64, 8, 16), (100, 2, 4), (33, 8, 16)]:
         pts.append(corner)
         seen.add(corner)
